@@ -247,7 +247,7 @@ func C18(env *Env) {
 		env.errorsNotLost("C18/ERRFLOW", inPackages(env.calleesBelow(f), "rtmr"))
 	}
 	r.Floor("C18/ERRFLOW", 3)
-	r.Floor("C18/GATES", 5)
+	r.Floor("C18/GATES", 4)
 	r.Floor("C18/REPLAY", 1)
 	r.Floor("C18/BANK", 4)
 	r.Floor("C18/DEFAULT", 2)
@@ -327,7 +327,7 @@ func (env *Env) c18Bank() {
 	okMax := len(alts) > 0
 	for _, a := range alts {
 		if hasGate(a, func(t *flow.Term) bool {
-			return pat.Bin("<=", iterFrom(pat.Const("0"), nil), pat.Const("3"))(t, pat.Bind{})
+			return pat.IntLe(iterFrom(pat.Const("0"), nil), 3)(t, pat.Bind{})
 		}, true) == nil {
 			okMax = false
 		}
